@@ -3,6 +3,7 @@ package rel
 import (
 	"context"
 	"fmt"
+	"sort"
 
 	"github.com/arr-ai/wbnf/parser"
 	"github.com/pkg/errors"
@@ -36,19 +37,31 @@ func NewSumExpr(scanner parser.Scanner, a, b Expr) Expr {
 	return NewReduceExpr(
 		scanner, a, ExprAsFunction(b), "%s sum ???",
 		func(s Set) (interface{}, error) {
-			return 0.0, nil
+			return []float64{}, nil
 		},
 		func(acc interface{}, v Value) (interface{}, error) {
 			switch v := v.(type) {
 			case Number:
-				return acc.(float64) + v.Float64(), nil
+				return append(acc.([]float64), v.Float64()), nil
 			}
 			return nil, errors.Errorf("Non-numeric value used in sum")
 		},
 		func(acc interface{}) (Value, error) {
-			return NewNumber(acc.(float64)), nil
+			return NewNumber(sumInCanonicalOrder(acc.([]float64))), nil
 		},
 	)
+}
+
+// sumInCanonicalOrder adds the terms in ascending order. Floating-point
+// addition is not associative, so adding them in the order the set happens to
+// enumerate them would make the result depend on the per-process hash seeds.
+func sumInCanonicalOrder(terms []float64) float64 {
+	sort.Float64s(terms)
+	sum := 0.0
+	for _, t := range terms {
+		sum += t
+	}
+	return sum
 }
 
 // NewMaxExpr evaluates to the max of expr over all elements in a.
@@ -79,8 +92,8 @@ func NewMaxExpr(scanner parser.Scanner, a, b Expr) Expr {
 // NewMeanExpr evaluates to the mean of expr over all elements in a.
 func NewMeanExpr(scanner parser.Scanner, a, b Expr) Expr {
 	type Agg struct {
-		sum float64
-		n   int
+		terms []float64
+		n     int
 	}
 	return NewReduceExpr(
 		scanner, a, ExprAsFunction(b), "%s mean ???",
@@ -93,14 +106,14 @@ func NewMeanExpr(scanner parser.Scanner, a, b Expr) Expr {
 		func(acc interface{}, v Value) (interface{}, error) {
 			agg := acc.(Agg)
 			if v, ok := v.(Number); ok {
-				return Agg{sum: agg.sum + v.Float64(), n: agg.n}, nil
+				return Agg{terms: append(agg.terms, v.Float64()), n: agg.n}, nil
 			}
 			return nil, errors.Errorf("Non-numeric value used in mean")
 		},
 		func(acc interface{}) (Value, error) {
 			agg := acc.(Agg)
 			if agg.n != 0 {
-				return NewNumber(agg.sum / float64(agg.n)), nil
+				return NewNumber(sumInCanonicalOrder(agg.terms) / float64(agg.n)), nil
 			}
 			return nil, errors.Errorf("Non-numeric value used in mean")
 		},
